@@ -138,7 +138,10 @@ def observe(fn):
         return ("reject", type(e).__name__)
     except Exception as e:  # outcome of the code under test
         return ("error", type(e).__name__, str(e)[:200])
-    return ("ok", norm_actual(r))
+    try:
+        return ("ok", norm_actual(r))
+    except Exception as e:  # the library returned something that is not a structure of terms
+        return ("error", f"result-is-not-a-term-structure({type(e).__name__})", repr(r)[:200])
 
 
 # --------------------------------------------------------------------------------------
@@ -444,7 +447,39 @@ def judge(acc, tree, s, tokens, intercept, flags, avail, ex, do_formula, clause_
             report(out2, ex.post, "Formula")
 
 
+ORACLE_REPRO = '''# re-runs the driver's own judging step on this case; it raised {exc} in the run that produced this witness
+from vf.bounded import {module} as driver
+acc = driver.Acc()
+driver.{function}(acc, *{args!r})
+assert not acc.failures, acc.failures[:1]
+'''
+
+
+def guard_case(acc, clause, module, function, args, case):
+    """Run one case's judging step; an exception while judging (e.g. the changed library returned
+    something the oracle cannot digest) is a violation of that case's clause, and the run goes on."""
+    try:
+        globals_fn = __import__(f"vf.bounded.{module}", fromlist=[function])
+        getattr(globals_fn, function)(acc, *args)
+    except Exception as e:
+        w = dict(case)
+        w["exception"] = f"{type(e).__name__}: {e}"[:300]
+        w["code"] = ORACLE_REPRO.format(module=module, function=function, args=tuple(args), exc=type(e).__name__)
+        acc.fail(clause, f"oracle-not-applicable:{type(e).__name__}", w, f"judging {case} raised {type(e).__name__}: {e}"[:500])
+
+
 def check_tree(acc, tree, opts):
+    guard_case(acc, "C01.sem.oracle", "c01", "_check_tree", (tree, opts), {"formula": _safe_show(tree)})
+
+
+def _safe_show(tree):
+    try:
+        return E.show(tree)
+    except Exception:
+        return repr(tree)[:200]
+
+
+def _check_tree(acc, tree, opts):
     tokens = E.to_tokens(tree)
     s = E.render(tokens)
     avails = (AVAILS if opts.get("all_avails", True) else (None, AVAILS[-1])) if E.has_dot(tree) else (None,)
@@ -841,8 +876,11 @@ def w_identities(args):
                         equal = ol[0] == "ok" and orr[0] == "ok" and ol[1] == orr[1]
                         if equal:
                             # the library's own equality must agree
-                            fa, fb = Formula(sl, _parser=parser), Formula(sr, _parser=parser)
-                            equal = bool(fa == fb)
+                            try:
+                                fa, fb = Formula(sl, _parser=parser), Formula(sr, _parser=parser)
+                                equal = bool(fa == fb)
+                            except Exception:  # outcome of the code under test
+                                equal = False
                         if not equal:
                             w = {
                                 "identity": ident,
@@ -855,6 +893,14 @@ def w_identities(args):
                             kind = "differ" if ol[0] == "ok" and orr[0] == "ok" else "one-side-raises:" + (ol if ol[0] != "ok" else orr)[1]
                             acc.fail(f"C01.identity.{ident}", f"{wname}/{kind}", w, f"documented identity {ident}: Formula({sl!r}) != Formula({sr!r})")
     return ("identities", acc.result())
+
+
+def _lib_equal(fn):
+    """The library's own `==` as an outcome (an exception is 'not equal')."""
+    try:
+        return bool(fn())
+    except Exception:
+        return False
 
 
 def w_power_identity(args):
@@ -876,12 +922,12 @@ def w_power_identity(args):
                     ol = observe(lambda: Formula(sl, _parser=parser))
                     orr = observe(lambda: Formula(sr, _parser=parser))
                     if k == 3 and n == 2:
-                        ok = ol[0] == "ok" and orr[0] == "ok" and ol[1] == orr[1] and Formula(sl, _parser=parser) == Formula(sr, _parser=parser)
+                        ok = ol[0] == "ok" and orr[0] == "ok" and ol[1] == orr[1] and _lib_equal(lambda: Formula(sl, _parser=parser) == Formula(sr, _parser=parser))
                     else:
                         ok = ol[0] == "ok" and orr[0] == "ok" and E.as_sets(ol[1]) == E.as_sets(orr[1])
                         if ok:
-                            degs = [E.degree(t) for t in ol[1]["root"]]
-                            ok = degs == sorted(degs)
+                            degs = [E.degree(t) for t in ol[1]["root"]] if isinstance(ol[1].get("root"), list) else None
+                            ok = degs is not None and degs == sorted(degs)
                     if not ok:
                         code = IDENTITY_REPRO.format(psrc=parser_src(intercept), a=sl, b=sr)
                         if not (k == 3 and n == 2):
@@ -969,7 +1015,7 @@ def w_specforms(args):
                 out = observe(lambda: Formula(*a, **kw))
                 ok = out[0] == "ok" and out[1] == base[1]
                 if ok:
-                    ok = bool(Formula(s, _parser=parser) == Formula(*a, **kw))
+                    ok = _lib_equal(lambda: Formula(s, _parser=parser) == Formula(*a, **kw))
                 if not ok:
                     got = plain_actual(out[1]) if out[0] == "ok" else list(out)
                     w = {"form": fname, "string": s, "include_intercept": intercept, "spec": argsrc, "observed": got, "string_form": plain_actual(base[1]), "code": SPEC_REPRO.format(psrc=psrc, s=s, other=argsrc)}
@@ -990,7 +1036,7 @@ def w_specforms(args):
                 acc.case(("sum-list", s), True, sample={"form": "list-of-summands", "string": s})
                 base = observe(lambda: Formula(s, _parser=nparser))
                 out = observe(lambda: Formula(list(summands2)))
-                ok = base[0] == "ok" and out[0] == "ok" and base[1] == out[1] and bool(Formula(s, _parser=nparser) == Formula(list(summands2)))
+                ok = base[0] == "ok" and out[0] == "ok" and base[1] == out[1] and _lib_equal(lambda: Formula(s, _parser=nparser) == Formula(list(summands2)))
                 if not ok:
                     dup = len(set(summands2)) < len(summands2) or (variant != "plain" and len(summands2) > 1)
                     argsrc = f"({list(summands2)!r})"
@@ -1095,9 +1141,36 @@ def w_deco3(args):
     return ("decorated-trees", acc.result())
 
 
-def _run(task):
+WORKER_DRIVER = {
+    "w_base": "grammar-trees", "w_deco": "decorated-trees", "w_deco3": "decorated-trees", "w_combo": "decorated-pairs", "w_powers": "powers",
+    "w_colon_names": "colon-names", "w_random": "random-trees", "w_negative": "sign-run-negative-space", "w_flags": "feature-flags",
+    "w_identities": "identities", "w_power_identity": "identities", "w_unbalanced": "unbalanced", "w_specforms": "spec-forms",
+}
+WORKER_REPRO = '''# re-runs the shard of the bounded driver that raised {exc} (an exception in the driver's judging code is a violation, not a crash)
+from vf.bounded import {module} as driver
+driver.{function}({args!r})
+'''
+
+
+def run_task_safely(task, module, worker_driver, clause, n_result=5):
+    """Pool workers never propagate: an exception is returned as a failure record."""
     fn, args = task
-    return fn(args)
+    try:
+        return fn(args)
+    except Exception as e:
+        import traceback
+
+        w = {"cls": f"oracle-not-applicable:{type(e).__name__}", "formula": f"<shard {fn.__name__}{args!r}>"[:200], "config": "worker", "exception": traceback.format_exc()[-1500:],
+             "code": WORKER_REPRO.format(module=module, function=fn.__name__, args=args, exc=type(e).__name__)}
+        detail = f"worker {fn.__name__}{args!r} raised {type(e).__name__}: {e}"[:500]
+        res = (0, set(), [], [(clause, w, detail)], {(clause, w["cls"]): 1})
+        if n_result == 6:
+            res = res + ({},)
+        return (worker_driver.get(fn.__name__, next(iter(worker_driver.values()))), res)
+
+
+def _run(task):
+    return run_task_safely(task, "c01", WORKER_DRIVER, "C01.driver.worker")
 
 
 def run_bounded(ctx):
